@@ -314,3 +314,8 @@ def pop_facts(ty, old, new):
     if ty == StackT:
         return [z3.ForAll([xq], OnStack(old, xq) == z3.Or(OnStack(new, xq), StackEntry.get(StackT.at(old)[StackT.len(old) - 1], 0) == xq))]
     return []
+
+LEMMAS.update({
+    "def.CacheOK": "CacheOK = each present cache field is correct for the node's current successor signature (definition)",
+    "L3+L8.cache_consequences": "no candidate => no owned attractor; one candidate in a successor-free trap space => it lies in the only attractor (L3: a trap space contains an attractor; L8: attractors are disjoint); a system of representatives covers",
+})
